@@ -136,8 +136,43 @@ def write_if_changed(path, content):
         f.write(content)
 
 
+_MUT = None
+
+
+def mutation_files():
+    """VERIF_MUTATION=<unified diff against /repo>: returns {repo-relative path: patched copy}. The
+    diff is applied to copies of the touched files, which then replace the originals in the overlay
+    (used for detection demos and seeded changes; /repo is not touched)."""
+    global _MUT
+    if _MUT is not None:
+        return _MUT
+    _MUT = {}
+    diff = os.environ.get("VERIF_MUTATION")
+    if not diff:
+        return _MUT
+    import hashlib
+    import shutil
+    text = open(diff).read()
+    files = re.findall(r"^\+\+\+ b/(\S+)", text, re.M)
+    root = os.path.join(BUILD, "gen", "mut", hashlib.sha256(text.encode()).hexdigest()[:12])
+    shutil.rmtree(root, ignore_errors=True)
+    for f in files:
+        os.makedirs(os.path.dirname(os.path.join(root, f)), exist_ok=True)
+        if os.path.exists(os.path.join(REPO, f)):
+            shutil.copy(os.path.join(REPO, f), os.path.join(root, f))
+    p = subprocess.run(["patch", "-p1", "-s", "--no-backup-if-mismatch", "-d", root, "-i", os.path.abspath(diff)], stdout=subprocess.PIPE, stderr=subprocess.STDOUT, text=True)
+    if p.returncode != 0:
+        sys.stderr.write(p.stdout)
+        raise SystemExit("mutation does not apply: " + diff)
+    for f in files:
+        dst = os.path.join(root, f) + ".txt"
+        os.rename(os.path.join(root, f), dst)
+        _MUT[f] = dst
+    return _MUT
+
+
 def rewrite_imports(relpath, mapping):
-    src = open(os.path.join(REPO, relpath)).read()
+    src = open(mutation_files().get(relpath) or os.path.join(REPO, relpath)).read()
     m = re.search(r"^import \((.*?)^\)", src, re.S | re.M)
     if not m:
         raise SystemExit("no import block in " + relpath)
@@ -179,6 +214,8 @@ def gen_overlay(group):
         for fn in sorted(files):
             if fn.endswith(".go"):
                 repl[os.path.join(REPO, rel, "zz_verif_" + fn)] = os.path.join(root, fn)
+    for relpath, mpath in mutation_files().items():
+        repl[os.path.join(REPO, relpath)] = mpath
     for relpath, mapping in REWRITES.get(group, {}).items():
         out = os.path.join(BUILD, "gen", group, relpath + ".txt")
         write_if_changed(out, rewrite_imports(relpath, mapping))
